@@ -630,6 +630,9 @@ func (p *Path) mapFind(m *MapObj, key Value) *mapEntry {
 		if e.deleted {
 			continue
 		}
+		if p.e.verbose || p.e.debugSites {
+			p.curSite = "mapFind entry=" + valStr(e.k) + " key=" + valStr(key)
+		}
 		if p.decide(p.equals(e.k, key)) {
 			return e
 		}
